@@ -117,6 +117,15 @@ impl ParsedProgram {
   }
 
   pub fn decode_const_entries(&self) -> MResult<Vec<Value>> {
+    // The payload decoders (`ConstElem::from_le`) cannot return an error and report
+    // malformed data by panicking; a corrupt file must not take the host down.
+    match std::panic::catch_unwind(std::panic::AssertUnwindSafe(|| self.decode_const_entries_unguarded())) {
+      Ok(result) => result,
+      Err(_) => Err(MechError::new(MalformedConstantPayloadError, None).with_compiler_loc()),
+    }
+  }
+
+  fn decode_const_entries_unguarded(&self) -> MResult<Vec<Value>> {
     let mut out = Vec::with_capacity(self.const_entries.len());
     let blob_len = self.const_blob.len() as u64;
 
@@ -966,6 +975,13 @@ pub struct SectionOutOfBoundsError { pub offset: u64, pub length: u64, pub total
 impl MechErrorKind for SectionOutOfBoundsError {
   fn name(&self) -> &str { "SectionOutOfBounds" }
   fn message(&self) -> String { format!("Section at offset {} with length {} does not fit in {} bytes", self.offset, self.length, self.total_len) }
+}
+
+#[derive(Debug, Clone)]
+pub struct MalformedConstantPayloadError;
+impl MechErrorKind for MalformedConstantPayloadError {
+  fn name(&self) -> &str { "MalformedConstantPayload" }
+  fn message(&self) -> String { "Constant payload is malformed".to_string() }
 }
 
 #[derive(Debug, Clone)]
